@@ -230,7 +230,10 @@ var c02CBAction = []string{
 	6: "that row.Add(NewCell(fresh)); t.AddSeparator()",
 	7: "t.AppendNewRow().Add(NewCell(fresh))",
 	8: "t.AddRow(r%d) if r%d is a row that is in no table yet",
+	9: "no building call",
 }
+
+var c02CBReturns = []string{0: "nil", 1: "an error, for every target it is for", 2: "an error, for every second target it is for"}
 
 var c02CBFilter = []string{0: "every target", 1: "every target but header rows and header cells", 2: "header rows and header cells only"}
 
@@ -253,7 +256,11 @@ func c02CBGoLine(op C02Op) string {
 	if a == 4 || a == 8 {
 		act = fmt.Sprintf(act, op.R2, op.R2)
 	}
-	return fmt.Sprintf("t.RegisterPropertyCallback(%s, callback{does: %s; for: %s; at most %d times in all})", where, act, c02CBFilter[f], op.B)
+	ret := ""
+	if op.E > 0 && op.E < len(c02CBReturns) {
+		ret = "; returns: " + c02CBReturns[op.E]
+	}
+	return fmt.Sprintf("t.RegisterPropertyCallback(%s, callback{does: %s; for: %s; at most %d times in all%s})", where, act, c02CBFilter[f], op.B, ret)
 }
 
 // which row a call is about
@@ -269,7 +276,8 @@ type c02Hdr struct {
 }
 
 type c02CBExec struct {
-	t      *tabular.ATable
+	t      tabular.Table // the value the building calls are made on
+	obs    tabular.Table // the value the table is looked at through
 	vars   map[int]*tabular.Row
 	in     map[int]bool
 	nrows  int // rows and separators added, by the program or by callbacks
@@ -280,6 +288,7 @@ type c02CBExec struct {
 	nextV  int
 	calls  int
 	nested int
+	errs   int // errors returned by the callbacks
 }
 
 func (e *c02CBExec) cur() *c02Hdr {
@@ -397,6 +406,17 @@ type c02CB struct {
 	e    *c02CBExec
 	spec C02Op
 	left int
+	seen int
+}
+
+// what the callback returns for one more target it is for (spec.E)
+func (cb *c02CB) result() error {
+	cb.seen++
+	if cb.spec.E == 1 || (cb.spec.E == 2 && cb.seen%2 == 0) {
+		cb.e.errs++
+		return fmt.Errorf("callback: target %d refused", cb.seen)
+	}
+	return nil
 }
 
 func (cb *c02CB) UpdateProperties(po tabular.PropertyOwner) error {
@@ -421,8 +441,9 @@ func (cb *c02CB) UpdateProperties(po tabular.PropertyOwner) error {
 	if (cb.spec.F == 1 && isHeader) || (cb.spec.F == 2 && !isHeader) {
 		return nil
 	}
+	ret := cb.result()
 	if cb.left <= 0 || e.calls >= 300 {
-		return nil
+		return ret
 	}
 	cb.left--
 	switch cb.spec.A {
@@ -454,7 +475,7 @@ func (cb *c02CB) UpdateProperties(po tabular.PropertyOwner) error {
 	case 8:
 		e.addRow(cb.spec.R2)
 	}
-	return nil
+	return ret
 }
 
 func (e *c02CBExec) register(op C02Op) {
@@ -565,9 +586,10 @@ func c02HistoryText(ops []C02Op, segs []int) string {
 // c02RunCB runs a program with callbacks on a real table; the case is the
 // logged history, its segments, and the dump after every segment.
 func c02RunCB(cs C02Spec, spec json.RawMessage) CaseOut {
-	e := &c02CBExec{t: tabular.New(), vars: map[int]*tabular.Row{}, in: map[int]bool{}}
+	tb, ob, mk := cs.Via.make("t")
+	e := &c02CBExec{t: tb, obs: ob, vars: map[int]*tabular.Row{}, in: map[int]bool{}}
 	var res c02Result
-	lines := []string{"t := tabular.New()"}
+	lines := []string{mk}
 	for _, op := range cs.Ops {
 		lines = append(lines, c02GoLine(op))
 	}
@@ -594,7 +616,7 @@ func c02RunCB(cs C02Spec, spec json.RawMessage) CaseOut {
 				continue
 			}
 			segs = append(segs, n)
-			d := dumpTable(e.t)
+			d := dumpTable(e.obs)
 			dumps = append(dumps, d.bytes...)
 			if res.Sig == "" {
 				res.Sig = d.sig()
@@ -603,6 +625,7 @@ func c02RunCB(cs C02Spec, spec json.RawMessage) CaseOut {
 		}
 	}()
 	res.Nested = e.nested
+	res.CBErrors = e.errs
 	res.History = c02HistoryText(e.log, segs)
 	ns := make([]string, len(segs))
 	for i, n := range segs {
@@ -612,14 +635,14 @@ func c02RunCB(cs C02Spec, spec json.RawMessage) CaseOut {
 	if panicked {
 		obs = "Panic"
 	}
-	tags := c02Tags(cs.Ops, res)
+	tags := append(c02Tags(cs.Ops, res), cs.Via.tags()...)
 	return CaseOut{
 		Coq:        "[(" + c02CoqHistory(e.log) + ", After " + cqList(ns) + ", " + obs + ")]",
 		Desc:       res,
 		Size:       c02Size(cs.Ops),
 		Tags:       tags,
 		Key:        string(spec),
-		Nontrivial: res.Last != nil && (res.Last.NRows > 0 || res.Last.Header != nil) && e.nested > 0,
+		Nontrivial: res.Last != nil && (res.Last.NRows > 0 || res.Last.Header != nil) && (e.nested > 0 || e.errs > 0),
 	}
 }
 
